@@ -587,7 +587,7 @@ def part_from_matchfile(
             warnings.warn(
                 "Calculated `onset_divs` does not match `OnsetInBeats` " "information!."
             )
-            onset_divs = onset_in_divs[ni]
+            onset_divs = int(round(onset_in_divs[ni]))
         assert onset_divs >= 0
         assert np.isclose(onset_divs, onset_in_divs[ni], atol=divs * 0.01)
         is_tied = False
